@@ -34,6 +34,14 @@ LEVEL_NOTE = 'Trusted: the snapshot and identity sweep in fsicverif/snap.py. Bou
 TECHNIQUE = 'twin snapshots around every mutation + identity / shares_memory sweep (runtime monitor)'
 
 
+class Box:
+    """A plain user object kept as an attribute value: hashable (by identity), yet mutable."""
+
+    def __init__(self):
+        self.items = [1]
+        self.arr = np.zeros(2)
+
+
 def nshards(tier):
     return 16
 
@@ -124,9 +132,18 @@ def mutations(obj, rng):
         out += [('status-write', lambda: d['_status'].__setitem__(rng.randrange(n), 'X')), ('iterations-write', lambda: d['_iterations'].__setitem__(rng.randrange(n), 77))]
     newname = f'N{rng.randrange(1000)}'
     attr_name = rng.choice(['attr' + newname, 'model', 'mode', 'sub', 'models', 's', 'e', 'data', 'note', 'id_', 'spans', 'x'])
-    out += [('add-variable', lambda: obj.add_variable(newname, 2.0)), ('add-attribute', lambda: obj.add_attribute(attr_name, {'k': [1]})),
+    attr_value = rng.choice([lambda: {'k': [1]}, lambda: {'k': [1]}, lambda: ([1, 2], np.zeros(2)), lambda: Box(), lambda: (Box(), 'x')])
+    out += [('add-variable', lambda: obj.add_variable(newname, 2.0)), ('add-attribute', lambda: obj.add_attribute(attr_name, attr_value())),
             ('set-new-attribute', lambda: setattr(obj, attr_name + '_', [1, 2])),
             ('strict-toggle', lambda: setattr(obj, 'strict', not obj.strict))]
+    for k_, v_ in list(d.items()):
+        # attribute values that are hashable (a tuple, a plain object) and still hold mutable things
+        if isinstance(v_, tuple) and v_ and isinstance(v_[0], list) and not k_.startswith('_'):
+            out.append(('attribute-tuple-inner-append', lambda v_=v_: (v_[0].append(7), v_[1].__setitem__(0, 5.0))))
+        elif isinstance(v_, Box):
+            out.append(('attribute-object-inner-mutate', lambda v_=v_: (v_.items.append(3), v_.arr.__setitem__(1, -1.0))))
+        elif isinstance(v_, tuple) and v_ and isinstance(v_[0], Box):
+            out.append(('attribute-tuple-object-mutate', lambda v_=v_: v_[0].items.append(4)))
     if 'memo' in d:
         out += [('attribute-list-append', lambda: d['memo'].append(5)), ('attribute-nested-append', lambda: d['memo'][1].append(9))]
     for lst in ('names', 'check', 'endogenous', 'preferred_names', 'index', '_attributes'):
